@@ -119,6 +119,23 @@ def h_tosieve(clsname, variant):
     cls = getattr(commands, clsname)
     cmd = cls(None)
     S = frozen.COMMANDS[cmd.name]
+    _tosieve_contract(cmd, S, variant)
+
+
+def h_tosieve_custom(desc, variant):
+    """the same serializer contract for a registered custom command built from the description tuple `desc` (C20)"""
+    cls, S = _custom_class(desc)
+    cmd = cls(None)
+    _tosieve_contract(cmd, S, variant)
+
+
+@native
+def _custom_class(desc):
+    from contracts import custom
+    return custom.make_custom(desc)
+
+
+def _tosieve_contract(cmd, S, variant):
     expected = [cmd.name]
     k = 0
     del MULTI[:]
